@@ -1,4 +1,5 @@
 // C02 — the std_portable.h twin of igris::vector (own executable: it redefines igris::vector).
+#include "c02_large.hpp"
 #include "c02_vector.hpp"
 #include <igris/container/std_portable.h>
 
@@ -11,5 +12,9 @@ namespace
         static constexpr bool has_at = false, has_less = false, has_sorted = false, has_il = false, has_list_range = false, has_erase_range = TWIN_HAS_ERASE_RANGE;
     };
 }
-MC_INIT { c02::register_vectors<TwinTraits>(); }
+MC_INIT
+{
+    c02::register_vectors<TwinTraits>();
+    c02::register_large_vectors<TwinTraits>();
+}
 MC_MAIN
